@@ -70,6 +70,15 @@ THEOREMS = [
     "Qentem.Props.C09.numeral_good",
     "Qentem.Props.C09.real_within_one_ulp_closed",
     "Qentem.Props.C09.overflow_reported_closed",
+    # non-vacuity: every hypothesis of the two closed theorems discharged on concrete numerals (Props/C09Instances.lean)
+    "Qentem.Props.C09.closed_applies",
+    "Qentem.Props.C09.meets_0_1",
+    "Qentem.Props.C09.meets_1em273",
+    "Qentem.Props.C09.meets_min_sub",
+    "Qentem.Props.C09.meets_long",
+    "Qentem.Props.C09.within_0_1",
+    "Qentem.Props.C09.one_ulp_attained",
+    "Qentem.Props.C09.overflow_instance",
 ]
 # Nothing is open: real_within_one_ulp_closed and overflow_reported_closed are the two general statements for EVERY
 # well-formed numeral without a leading zero of at most 99 999 000 units (the documented length bound: the 32-bit
@@ -328,7 +337,7 @@ def embed(text, rng, mode):
 
 def run(ctx):
     ctx.gen_constants(["StrToNum"])
-    ctx.prove(["Qentem.Props.C09", "Qentem.Props.C09More", "Qentem.Props.C09Long", "Qentem.Props.C09General", "Qentem.Props.C09Closed", "Qentem.Props.C11Parser", "Qentem.Props.C11Float"], THEOREMS, open_statements=OPEN)
+    ctx.prove(["Qentem.Props.C09", "Qentem.Props.C09More", "Qentem.Props.C09Long", "Qentem.Props.C09General", "Qentem.Props.C09Closed", "Qentem.Props.C09Instances", "Qentem.Props.C11Parser", "Qentem.Props.C11Float"], THEOREMS, open_statements=OPEN)
     drv = ctx.build_driver()
     exe = ctx.build_harness("strtonum_harness.cpp")
     if not (drv and exe):
